@@ -109,6 +109,9 @@ def _case(rng: Rng, big=False, ufpca_only=False):
         nc = M
     else:
         nc = float(rng.choice([Fraction(1, 2), Fraction(3, 4), Fraction(9, 10), Fraction(99, 100)]))
+    for c in comps:
+        if rng.random() < 0.25:
+            c["layout"] = rng.choice(["F", "strided"])
     return dict(kind="fit", comps=comps, exps=exps, n_components=nc, normalize=rng.random() < 0.3, rough=rough, sweep=sweep)
 
 
@@ -130,6 +133,13 @@ def gen_cases(rng: Rng, tier):
     for _ in range(dict(quick=4, thorough=40)[tier]):
         c = _case(rng)
         c["kind"] = "irregular"
+        yield c
+    # Gram (inner-product) route
+    for _ in range(dict(quick=10, thorough=120)[tier]):
+        c = _case(rng, ufpca_only=True)
+        c["kind"] = "gram"
+        c["n_components"] = rng.randint(1, 4)
+        c["noise"] = rng.choice(["zero", "zero", "estimated", "given"])
         yield c
 
 
@@ -169,6 +179,13 @@ def _mfd(comps, order):
         c = comps[p]
         t = np.array(fl([F(x) for x in c["t"]]))
         X = np.array([[float(F(x)) for x in r] for r in c["X"]])
+        lay = c.get("layout", "C")  # memory-layout sweep: Fortran-ordered / strided views of the same values
+        if lay == "F":
+            X = np.asfortranarray(X)
+        elif lay == "strided":
+            big = np.zeros((X.shape[0], 2 * X.shape[1]))
+            big[:, ::2] = X
+            X = big[:, ::2]
         out.append(DenseFunctionalData(DenseArgvals({"input_dim_0": t}), DenseValues(X)))
     return MultivariateFunctionalData(out)
 
@@ -302,6 +319,8 @@ def run_impl(case):
         return dict(out=_block_diag(*arrs).tolist())
     if case["kind"] == "irregular":
         return _run_irregular(case)
+    if case["kind"] == "gram":
+        return _run_gram(case)
     P = len(case["comps"])
     fits = []
     est0 = None
@@ -443,6 +462,41 @@ def _same(a, b):
         return all(_same(x, y) for x, y in zip(a, b)) and len(a) == len(b)
 
 
+def _run_gram(case):
+    """Gram route (`method="inner-product"`) in the given and the reversed order of the components."""
+    from FDApy.preprocessing.dim_reduction.mfpca import MFPCA
+
+    P = len(case["comps"])
+    outs = []
+    for order in (tuple(range(P)), tuple(reversed(range(P)))):
+        data = _mfd(case["comps"], order)
+        kw = {}
+        if case["noise"] == "zero":
+            kw["noise_variance"] = np.zeros(P)
+        elif case["noise"] == "given":
+            kw["noise_variance"] = np.array([0.0625 * (p + 1) for p in order])
+        o = dict(order=list(order))
+        with _Capture() as cap:
+            est = MFPCA(n_components=case["n_components"], method="inner-product", normalize=False)
+            with warnings.catch_warnings():
+                warnings.simplefilter("ignore")
+                with np.errstate(all="ignore"):
+                    est.fit(data, **kw)
+                    o["innpro"] = np.asarray(est.transform(method="InnPro")).tolist()
+                    o["numint_train"] = np.asarray(est.transform(method="NumInt")).tolist()
+        ce = cap.ce[-1]
+        o["G"] = ce["Z"].tolist()
+        o["l"] = ce["nu"].tolist()
+        o["v"] = ce["c"].tolist()
+        o["eigenvalues"] = np.asarray(est.eigenvalues).tolist()
+        o["D"] = [np.asarray(d._data_inpro.values).tolist() for d in est._training_data.data]
+        o["sigma2"] = [float(x) for x in np.atleast_1d(np.asarray(est._training_data._noise_variance, dtype=float))]
+        o["psi"] = [np.asarray(e.values).tolist() for e in est.eigenfunctions.data]
+        o["n_obs"] = int(data.n_obs)
+        outs.append(o)
+    return dict(gram=outs)
+
+
 def _run_irregular(case):
     """Well-formedness with one irregular component (random sub-sampling of the first component)."""
     from FDApy.preprocessing.dim_reduction.mfpca import MFPCA
@@ -541,6 +595,14 @@ def model_lines(case, impl):
         return [f"blockdiag {sh} {bl}"]
     if case["kind"] == "irregular":
         return []
+    if case["kind"] == "gram":
+        lines = []
+        for o in impl["gram"]:
+            if not (_finite(o["v"]) and _finite(o["sigma2"]) and all(_finite(d) for d in o["D"])):
+                continue
+            ts = "|".join(",".join(case["comps"][p]["t"]) for p in o["order"])
+            lines.append("gramroute {} {} {} {}".format(_v(o["sigma2"]), _m(o["v"]), ts, "|".join(_m(d) for d in o["D"])))
+        return lines
     lines = []
     for f in _modelled(impl["fits"]):
         lines += _fit_lines(case, f)
@@ -684,6 +746,39 @@ def compare(case, impl, model):
         if [[F(x) for x in r] for r in A] != Q:
             return ["_block_diag output differs from the model (exact comparison)"]
         return []
+    if case["kind"] == "gram":
+        ds = []
+        sent = [o for o in impl["gram"] if _finite(o["v"]) and _finite(o["sigma2"]) and all(_finite(d) for d in o["D"])]
+        Gs = []
+        for o, ans in zip(sent, outs):
+            parts = ans.split(" ")
+            if len(parts) != 2:
+                return [f"model answer to gramroute: {ans[:80]}"]
+            G = _pm(parts[0])
+            Gs.append(G)
+            nums = [_pm(x) for x in parts[1].split("|")]
+            gs = _amax(G) + max(o["sigma2"] + [0.0]) + 1e-300
+            ds += _cmp_mat(f"Gram matrix handed to _compute_eigen (order {o['order']})", o["G"], G, gs)
+            if not _same(o["eigenvalues"], (np.asarray(o["l"]) / o["n_obs"]).tolist()):
+                ds.append("Gram route: eigenvalues are not l / n_obs")
+            K = len(o["l"])
+            for q in range(len(o["order"])):
+                psi = np.asarray(o["psi"][q], dtype=float)
+                for k in range(K):
+                    if o["l"][k] <= 1e-10 * max(max(o["l"]), 1e-300):
+                        continue
+                    rho = math.sqrt(o["l"][k])
+                    sc = float(np.abs(np.asarray(o["v"])[:, k]) @ np.abs(np.asarray(o["D"][q])).max(axis=1)) + 1e-300
+                    for u in range(psi.shape[1]):
+                        if not close(psi[k][u] * rho, nums[q][k][u], sc, 1e-8):
+                            ds.append(f"Gram-route eigenfunction {k}, component {o['order'][q]}, point {u}: impl·√l {psi[k][u] * rho!r} vs exact {float(nums[q][k][u])!r}")
+                            break
+                    else:
+                        continue
+                    break
+        if len(Gs) == 2 and Gs[0] != Gs[1]:
+            ds.append("Gram route: the exact matrix changes when the components are listed in reverse order")
+        return ds
     ds = []
     pos = 0
     stats = {}
@@ -793,6 +888,44 @@ def oracle(case, impl):
             c += cc
         if A.shape != (r, c) or np.any(A[~mask] != 0):
             bad("block_assembly", "shape / off-block entries", "_block_diag")
+        return vs
+    if case["kind"] == "gram":
+        for o in impl["gram"]:
+            l = np.asarray(o["l"], dtype=float)
+            if not len(l):
+                continue
+            K = len(l)
+            pos_idx = [k for k in range(K) if l[k] > 1e-8 * max(l.max(), 1e-300)]
+            raw_sorted = o["l"] == sorted(o["l"], reverse=True)
+            causes = [] if raw_sorted else ["solver_output_unsorted"]
+            G = np.zeros((K, K))
+            for q, p in enumerate(o["order"]):
+                t = np.array(fl([F(x) for x in case["comps"][p]["t"]]))
+                psi = np.asarray(o["psi"][q], dtype=float)
+                for a in range(K):
+                    for b in range(K):
+                        G[a, b] += np.trapz(psi[a] * psi[b], t)
+            s2 = float(np.sum(o["sigma2"]))
+            want = np.diag((l + s2) / np.where(l > 0, l, 1.0))
+            idx = np.ix_(pos_idx, pos_idx)
+            if pos_idx and np.isfinite(G[idx]).all() and np.abs(G[idx] - want[idx]).max() > 1e-6 * max(1.0, np.abs(want[idx]).max()):
+                bad("gram_route_orthonormal", f"order {o['order']}: product-space Gram matrix of the Gram-route eigenfunctions deviates from diag((l+σ²)/l) by {np.abs(G[idx] - want[idx]).max():.3g}", causes=causes)
+            # NumInt scores of the curves the Gram matrix was built from (`_data_inpro`; transform(None, "NumInt")
+            # integrates the fit-centred training data instead, which `inner_product` centres once more)
+            S = np.asarray(o["innpro"], dtype=float)
+            T = np.zeros_like(S)
+            for q, p in enumerate(o["order"]):
+                t = np.array(fl([F(x) for x in case["comps"][p]["t"]]))
+                Dq, psi = np.asarray(o["D"][q], dtype=float), np.asarray(o["psi"][q], dtype=float)
+                for k in range(K):
+                    T[:, k] += np.trapz(Dq * psi[k][None, :], t, axis=1)
+            if s2 == 0.0 and pos_idx and np.isfinite(T).all():
+                dev = np.abs(S[:, pos_idx] - T[:, pos_idx]).max()
+                if dev > 1e-6 * max(np.abs(S).max(), 1e-300):
+                    bad("gram_route_scores", f"order {o['order']}: NumInt scores of the training curves differ from the InnPro scores by {dev:.3g} (noise-free)", "MFPCA.transform", causes=causes)
+        a, b = impl["gram"]
+        if np.abs(np.asarray(a["G"]) - np.asarray(b["G"])).max() > 1e-9 * max(np.abs(np.asarray(a["G"])).max(), 1e-300):
+            bad("permutation", "Gram route: the inner-product matrix depends on the order of the components")
         return vs
     if case["kind"] == "irregular":
         if "error" in impl:
